@@ -23,7 +23,12 @@
 (*    server's answer is treated as an unrelated IQ result;                 *)
 (*  - UnauthenticatedSession: features that offer nothing to negotiate open *)
 (*    a session even though the client never authenticated;                 *)
-(* Two places where the specification states the intended behaviour and the *)
+(* A SASL <success/> is accepted only from a server that authenticated      *)
+(* itself as the mechanism requires (SaslExchange.tla, C06); the scripted     *)
+(* server of this model never presents a SCRAM server signature, so a SCRAM  *)
+(* exchange can only end in an error here, while PLAIN succeeds.             *)
+(*                                                                          *)
+(* Places where the specification states the intended behaviour and the      *)
 (* pinned code did not follow it (repaired by "fix:" commits in /repo):      *)
 (*  - a version-less stream header started legacy authentication without     *)
 (*    looking at the TLS requirement (C04);                                  *)
@@ -169,7 +174,9 @@ StarttlsElement(r, e) ==
     ELSE ErrorClose(r)
 
 SaslElement(r, e) ==
-    CASE e.k = "Success"   -> HandleStart([SetLst(r, "Core") EXCEPT !.c.authed = TRUE])   \* restart the stream
+    CASE e.k = "Success"   -> IF r.c.mech = "SCRAM"            \* the scripted server never proves itself (no server signature)
+                              THEN SetLst(ErrorClose(r), "Core")
+                              ELSE HandleStart([SetLst(r, "Core") EXCEPT !.c.authed = TRUE])   \* restart the stream
       [] e.k = "Challenge" -> IF r.c.mech = "SCRAM" /\ r.c.step = 1 /\ e.good
                               THEN Emit([r EXCEPT !.c.step = 2], "SaslResponse")
                               ELSE SetLst(ErrorClose(r), "Core")      \* job finished with an error
@@ -177,7 +184,9 @@ SaslElement(r, e) ==
       [] OTHER             -> ErrorClose(r)                           \* Rejected: the job stays
 
 Sasl2Element(r, e) ==
-    CASE e.k = "Success2"   -> [SetLst(r, "Core") EXCEPT !.c.authed = TRUE]              \* features follow on the same stream
+    CASE e.k = "Success2"   -> IF r.c.mech = "SCRAM"
+                               THEN SetLst(ErrorClose(r), "Core")
+                               ELSE [SetLst(r, "Core") EXCEPT !.c.authed = TRUE]         \* features follow on the same stream
       [] e.k = "Challenge2" -> IF r.c.mech = "SCRAM" /\ r.c.step = 1 /\ e.good
                                THEN Emit([r EXCEPT !.c.step = 2], "Sasl2Response")
                                ELSE SetLst(ErrorClose(r), "Core")
